@@ -2,6 +2,7 @@
 import eevent
 import eunits
 import evnm
+import evnm2
 
 LEVEL = "E-VNM + E-EVENT + E-UNITS"
 
@@ -16,6 +17,10 @@ def run(ctx):
                 "pre_reorder(+_mut) and post_reorder(+_mut); in add_named_vars the scope guard (which resizes the level "
                 "table to the name map's length on every exit) exists before names are added. E-UNITS on the managers.")
     evnm.run(ctx, F)
+    ctx.explain("E-VNM.lockstep: in add_named every path through the loop body appends exactly one name per variable number "
+                "drawn, so that index[name] is the position of name in `names`.")
+    n = evnm2.run(ctx, F)
+    ctx.floor("E-VNM.lockstep", "loop paths of add_named", n, 2)
     eevent.check_manager(ctx, F, "oxidd_manager_index")
     eevent.check_manager(ctx, F, "oxidd_manager_pointer")
     nfn, _ = eunits.run(ctx, F, crates=("oxidd_core", "oxidd_manager_index", "oxidd_manager_pointer"))
